@@ -51,9 +51,9 @@ def justification : List ((String × String) × String) := [
   (("wpg.Table.DDL", "quote(cname)"), "conf.Integrations[].Table.Unique[][]"),
   (("wpg.Table.DDL", "strings.ReplaceAll(cols[i], \" \", \"_\")"), "conf.Integrations[].Table.Index[][]"),
   (("wpg.Table.DDL", "indexName"), "conf.Integrations[].Table.Index[][]"),
-  (("wpg.Table.Migrate", "t.Name"), "conf.Integrations[].Table.Name"),
-  (("wpg.Table.Migrate", "quote(c.Name)"), "conf.Integrations[].Table.Columns[].Name"),
-  (("wpg.Table.Migrate", "c.Type"), "conf.Integrations[].Table.Columns[].Type")
+  (("wpg.Table.addColumns", "t.Name"), "conf.Integrations[].Table.Name"),
+  (("wpg.Table.addColumns", "quote(c.Name)"), "conf.Integrations[].Table.Columns[].Name"),
+  (("wpg.Table.addColumns", "c.Type"), "conf.Integrations[].Table.Columns[].Type")
 ]
 
 /-- the same filter type serves event inputs, nested components and block fields; the index
